@@ -4,6 +4,8 @@ import (
 	"fmt"
 	"go/ast"
 	"go/token"
+	"go/types"
+	"golang.org/x/tools/go/cfg"
 	"strings"
 )
 
@@ -392,20 +394,22 @@ func checkRings(r *Reporter, p *Prog) {
 		what        string
 	}{
 		{"ds/queue", "Queue", "Offer", []string{"queue.ringBuffer[queue.write]=element", "queue.write=((queue.write+1)%queue.capacity)", "queue.size++", "return false", "return true"}, "store at write, advance write modulo capacity, size++; full queue rejects"},
-		{"ds/queue", "Queue", "ForceOffer", []string{"removedElement,wasRemoved=queue.poll()", "queue.ringBuffer[queue.write]=element", "queue.write=((queue.write+1)%queue.capacity)", "queue.size++"}, "evict oldest when full, then store/advance/size++"},
-		{"ds/queue", "Queue", "poll", []string{"element=queue.ringBuffer[queue.read]", "queue.read=((queue.read+1)%queue.capacity)", "queue.size--"}, "read at read cursor, advance modulo capacity, size--"},
+		{"ds/queue", "Queue", "ForceOffer", []string{"queue.ringBuffer[queue.read]=", "queue.ringBuffer[queue.write]=element", "queue.write=((queue.write+1)%queue.capacity)", "queue.size++"}, "evict oldest when full, then store/advance/size++"},
+		{"ds/queue", "Queue", "Poll", []string{"=queue.ringBuffer[queue.read]", "queue.read=((queue.read+1)%queue.capacity)", "queue.size--"}, "read at read cursor, advance modulo capacity, size--"},
 		{"ds/ringbuffer", "RingBuffer", "Add", []string{"r.buffer[r.pos]=element", "r.pos=((r.pos+1)%r.capacity)", "r.size=(r.size+1)"}, "store at pos, advance modulo capacity, size grows up to capacity"},
 	} {
-		s, fd := srcOf(p, row.pkg, row.typ, row.m)
+		// judged on the exported operation with its helpers expanded and operands resolved
+		f := p.CFGOf(row.pkg, row.typ, row.m)
 		key := row.pkg + "." + row.typ + "." + row.m
-		if fd == nil {
+		if f == nil {
 			r.Unresolved("pair/ring-cursor", key, "method not found")
 			continue
 		}
+		s := strings.Join(f.Effects(), "; ")
 		if hasAll(s, row.want...) {
-			r.Pass("pair/ring-cursor", key, p.posStr(fd.Pos()), row.what)
+			r.Pass("pair/ring-cursor", key, f.P.posStr(f.Body.Pos()), row.what)
 		} else {
-			r.Fail("pair/ring-cursor", key, p.posStr(fd.Pos()), "expected: "+row.what+"; found: "+s)
+			r.Fail("pair/ring-cursor", key, f.P.posStr(f.Body.Pos()), "expected: "+row.what+"; found: "+s)
 		}
 	}
 	// full / empty guards
@@ -572,23 +576,43 @@ func checkTimeComparators(r *Reporter, p *Prog) {
 			r.Unresolved("cmp/direction", key, "method not found")
 			continue
 		}
+		// whatever the dispatch form: the return reachable only on the Before(t, other) edge and
+		// the one reachable only on the After(t, other) edge (operands resolved, conversions dropped)
 		got := map[string]string{}
-		ast.Inspect(fd.Body, func(n ast.Node) bool {
-			cc, ok := n.(*ast.CaseClause)
-			if !ok || len(cc.List) != 1 || len(cc.Body) != 1 {
-				return true
+		{
+			f := newFuncCFG(p, p.Pkg(pkg).TypesInfo, fd.Body, key)
+			strip := func(k string) string {
+				for strings.HasPrefix(k, "time.Time(") && strings.HasSuffix(k, ")") {
+					k = strings.TrimSuffix(strings.TrimPrefix(k, "time.Time("), ")")
+				}
+				return k
 			}
-			rs, ok := cc.Body[0].(*ast.ReturnStmt)
-			cl, ok2 := ast.Unparen(cc.List[0]).(*ast.CallExpr)
-			if !ok || !ok2 || len(cl.Args) != 1 {
-				return true
+			edgesOf := map[string][]Edge{}
+			f.forEachEdgeFact(func(e Edge, b *cfg.Block, ft fact) {
+				cl, ok := ast.Unparen(ft.Atom).(*ast.CallExpr)
+				if !ok || !ft.Pol || len(cl.Args) != 1 {
+					return
+				}
+				se, ok := ast.Unparen(cl.Fun).(*ast.SelectorExpr)
+				if !ok || (se.Sel.Name != "Before" && se.Sel.Name != "After") {
+					return
+				}
+				pt := Point{b, len(b.Nodes) - 1}
+				k := se.Sel.Name + "(" + strip(f.KeyAt(se.X, pt)) + "," + strip(f.KeyAt(cl.Args[0], pt)) + ")"
+				edgesOf[k] = append(edgesOf[k], e)
+			})
+			for _, pt := range f.Find(func(n ast.Node) bool { _, ok := n.(*ast.ReturnStmt); return ok }) {
+				rs := f.nodeAt(pt).(*ast.ReturnStmt)
+				if len(rs.Results) != 1 {
+					continue
+				}
+				for k, edges := range edgesOf {
+					if _, only := f.OnlyThroughEdges(pt, edges); only {
+						got[k] = exprKey(rs.Results[0])
+					}
+				}
 			}
-			se, ok := cl.Fun.(*ast.SelectorExpr)
-			if ok {
-				got[se.Sel.Name+"("+stripConv(se.X)+","+stripConv(cl.Args[0])+")"] = exprKey(rs.Results[0])
-			}
-			return true
-		})
+		}
 		if got["Before(t,other)"] == row.before && got["After(t,other)"] == row.after {
 			r.Pass("cmp/direction", key, p.posStr(fd.Pos()), fmt.Sprintf("earlier -> %s, later -> %s", row.before, row.after))
 		} else {
@@ -659,16 +683,14 @@ func checkSubscriptionManager(r *Reporter, p *Prog) {
 	} else {
 		r.Pass("lock/no-callback-under-lock", pkg+".SubscriptionManager events", "-", fmt.Sprintf("%d trigger sites, all outside the lock", nTrig))
 	}
+	checkCleanupSubtractsClientCount(r, p, pkg, info)
 	// coupled counts in Subscribe / Unsubscribe (the locked literal)
 	for _, row := range []struct {
-		m          string
-		clientPred func(string) bool
-		undo       string
+		m    string
+		undo bool
 	}{
-		{"Subscribe", func(k string) bool { return strings.HasPrefix(k, "subscribedTopics.Set(topic,") }, "subscribedTopics.Delete(topic)"},
-		{"Unsubscribe", func(k string) bool {
-			return strings.HasPrefix(k, "subscribedTopics.Set(topic,") || k == "subscribedTopics.Delete(topic)"
-		}, ""},
+		{"Subscribe", true},
+		{"Unsubscribe", false},
 	} {
 		fd := p.FuncDecl(pkg, "SubscriptionManager", row.m)
 		key := pkg + ".SubscriptionManager." + row.m
@@ -690,28 +712,60 @@ func checkSubscriptionManager(r *Reporter, p *Prog) {
 			continue
 		}
 		lf := newFuncCFG(p, info, lit.Body, key+"$locked")
-		clientChanges := lf.Find(func(n ast.Node) bool {
-			cl, ok := n.(*ast.CallExpr)
-			return ok && row.clientPred(exprKey(cl))
-		})
-		isGlobal := func(n ast.Node) bool {
+		// the maps are identified by where they come from, not by the names of the locals:
+		//   per-client count  = a Set/Delete(topic...) on the map obtained from s.subscribers.Get(client)
+		//   global count      = a Set/Delete(topic...) on s.topics
+		mapOp := func(n ast.Node) (kind, op string) {
 			cl, ok := n.(*ast.CallExpr)
 			if !ok {
-				return false
+				return "", ""
 			}
-			k := exprKey(cl)
-			return strings.HasPrefix(k, "s.topics.Set(topic,") || k == "s.topics.Delete(topic)"
+			se, ok := ast.Unparen(cl.Fun).(*ast.SelectorExpr)
+			if !ok || (se.Sel.Name != "Set" && se.Sel.Name != "Delete") {
+				return "", ""
+			}
+			pt, okp := lf.PointOf(cl)
+			if !okp {
+				return "", ""
+			}
+			rk := lf.KeyAt(se.X, pt)
+			switch {
+			case strings.HasSuffix(rk, ".topics"):
+				return "global", se.Sel.Name
+			case strings.Contains(rk, ".subscribers.Get("):
+				return "client", se.Sel.Name
+			}
+			return "", ""
 		}
-		isUndo := func(n ast.Node) bool {
-			cl, ok := n.(*ast.CallExpr)
-			return ok && row.undo != "" && exprKey(cl) == row.undo
-		}
+		clientChanges := lf.Find(func(n ast.Node) bool { k, _ := mapOp(n); return k == "client" })
+		isGlobal := func(n ast.Node) bool { k, _ := mapOp(n); return k == "global" }
+		isUndo := func(n ast.Node) bool { k, op := mapOp(n); return row.undo && k == "client" && op == "Delete" }
 		isObserver := func(n ast.Node) bool {
 			cl, ok := n.(*ast.CallExpr)
 			return ok && strings.HasSuffix(exprKey(cl.Fun), ".cleanupClientWithoutLocking")
 		}
 		// exempt: the global topic entry is known to be absent (nothing to decrement)
-		_, noGlobal := lf.CondEdges(func(e ast.Expr) bool { return exprKey(e) == "has" })
+		var noGlobal []Edge
+		lf.forEachEdgeFact(func(e Edge, b *cfg.Block, ft fact) {
+			if ft.Pol {
+				return
+			}
+			if c, idx := lf.AtomCall(ft.Atom, Point{b, len(b.Nodes) - 1}); c != nil && idx == 1 {
+				if se, ok := ast.Unparen(c.Fun).(*ast.SelectorExpr); ok && se.Sel.Name == "Get" && strings.HasSuffix(rawKey(se.X), ".topics") {
+					noGlobal = append(noGlobal, e)
+				}
+			}
+		})
+		if row.undo {
+			// in Subscribe the undo (Delete on the client map) is not itself a count change to match
+			var keep []Point
+			for _, ch := range clientChanges {
+				if _, op := mapOp2(lf, ch, mapOp); op != "Delete" {
+					keep = append(keep, ch)
+				}
+			}
+			clientChanges = keep
+		}
 		if len(clientChanges) == 0 {
 			r.Fail("pair/client-global-count", key, p.posStr(lit.Pos()), "no per-client count change found (vacuous)")
 			continue
@@ -751,4 +805,100 @@ func checkSubscriptionManager(r *Reporter, p *Prog) {
 			r.Pass("pair/client-global-count", key, p.posStr(lit.Pos()), fmt.Sprintf("%d per-client change(s), each matched by a global change (or undone) before the observer / the end of the section", len(clientChanges)))
 		}
 	}
+}
+
+// checkCleanupSubtractsClientCount: when a client is dropped as a whole, each of its topics
+// releases as many global subscriptions as the client held: the value written back to the global
+// map is <global count> - <the client's count for the topic>, and the topic is deleted only on
+// an edge decided by that difference. Releasing one subscription per topic (as Unsubscribe does)
+// leaks the rest: the topic keeps phantom subscribers for ever.
+func checkCleanupSubtractsClientCount(r *Reporter, p *Prog, pkg string, info *types.Info) {
+	key := pkg + ".SubscriptionManager.cleanupClientWithoutLocking"
+	fd := p.FuncDecl(pkg, "SubscriptionManager", "cleanupClientWithoutLocking")
+	if fd == nil {
+		r.Unresolved("pair/cleanup-subtracts-client-count", key, "method not found")
+		return
+	}
+	var lit *ast.FuncLit
+	ast.Inspect(fd.Body, func(n ast.Node) bool {
+		if cl, ok := n.(*ast.CallExpr); ok && strings.HasSuffix(exprKey(cl.Fun), ".ForEach") && len(cl.Args) == 1 {
+			if l, ok := cl.Args[0].(*ast.FuncLit); ok && l.Type.Params.NumFields() == 2 {
+				lit = l
+			}
+		}
+		return true
+	})
+	if lit == nil {
+		r.Fail("pair/cleanup-subtracts-client-count", key, p.posStr(fd.Pos()), "no per-topic callback (topic, count) over the client's subscriptions found")
+		return
+	}
+	var countParam types.Object
+	i := 0
+	for _, fl := range lit.Type.Params.List {
+		for _, nm := range fl.Names {
+			if i == 1 {
+				countParam = info.Defs[nm]
+			}
+			i++
+		}
+	}
+	lf := newFuncCFG(p, info, lit.Body, key+"$topic")
+	isClientCount := func(e ast.Expr, pt Point) bool {
+		re, _ := lf.Resolve(e, pt)
+		return countParam != nil && objOfIdent(info, re) == countParam
+	}
+	nSet, nDel := 0, 0
+	var bad []string
+	for _, cl := range lf.Calls(func(cl *ast.CallExpr) bool {
+		se, ok := ast.Unparen(cl.Fun).(*ast.SelectorExpr)
+		if !ok || (se.Sel.Name != "Set" && se.Sel.Name != "Delete") {
+			return false
+		}
+		pt, okp := lf.PointOf(cl)
+		return okp && strings.HasSuffix(lf.KeyAt(se.X, pt), ".topics")
+	}) {
+		pt, _ := lf.PointOf(cl)
+		name := ast.Unparen(cl.Fun).(*ast.SelectorExpr).Sel.Name
+		if name == "Set" {
+			nSet++
+			ok := false
+			if len(cl.Args) == 2 {
+				v, vpt := lf.Resolve(cl.Args[1], pt)
+				if be, isBin := ast.Unparen(v).(*ast.BinaryExpr); isBin && be.Op == token.SUB && isClientCount(be.Y, vpt) && strings.Contains(lf.KeyAt(be.X, vpt), ".topics.Get(") {
+					ok = true
+				}
+			}
+			if !ok {
+				bad = append(bad, lf.PosOf(pt)+": the global count is set to "+lf.KeyAt(cl.Args[len(cl.Args)-1], pt)+", not to <global count> - <the client's count>")
+			}
+		} else {
+			nDel++
+			edges := lf.RelEdgesAt(func(rel Rel) bool {
+				both := rel.L + " " + rel.R
+				return strings.Contains(both, ".topics.Get(") && countParam != nil && strings.Contains(both, "-"+countParam.Name()+")")
+			})
+			if _, only := lf.OnlyThroughEdges(pt, edges); !only || len(edges) == 0 {
+				bad = append(bad, lf.PosOf(pt)+": the topic is deleted without a test of <global count> - <the client's count>")
+			}
+		}
+	}
+	switch {
+	case nSet == 0 || nDel == 0:
+		r.Fail("pair/cleanup-subtracts-client-count", key, p.posStr(lit.Pos()), fmt.Sprintf("expected a Set and a Delete on the global topics map per released topic, found %d/%d", nSet, nDel))
+	case len(bad) > 0:
+		r.Fail("pair/cleanup-subtracts-client-count", key, p.posStr(lit.Pos()), bad[0], bad...)
+	default:
+		r.Pass("pair/cleanup-subtracts-client-count", key, p.posStr(lit.Pos()), "global count -= the client's count; topic deleted when that difference is exhausted")
+	}
+}
+
+// mapOp2 applies a node classifier to the call contained in a block point.
+func mapOp2(f *FuncCFG, pt Point, classify func(ast.Node) (string, string)) (kind, op string) {
+	inspectNoLit(f.nodeAt(pt), func(n ast.Node) bool {
+		if k, o := classify(n); k != "" && kind == "" {
+			kind, op = k, o
+		}
+		return true
+	})
+	return
 }
